@@ -473,6 +473,12 @@ class _PushNot(ast.NodeTransformer):
     def visit_Call(self, node):
         # `list()` / `dict()` / `tuple()` without argument are the empty displays
         self.generic_visit(node)
+        # isinstance(x, (A, B)) is isinstance(x, A) or isinstance(x, B): the repository never uses the tuple form
+        if isinstance(node.func, ast.Name) and node.func.id == "isinstance" and len(node.args) == 2 and isinstance(node.args[1], ast.Tuple) and len(node.args[1].elts) >= 2 and not node.keywords:
+            self.n += 1
+            import copy as _copy
+            vals = [ast.Call(func=ast.Name(id="isinstance", ctx=ast.Load()), args=[_copy.deepcopy(node.args[0]), e], keywords=[]) for e in node.args[1].elts]
+            return ast.copy_location(ast.BoolOp(op=ast.Or(), values=vals), node)
         if isinstance(node.func, ast.Name) and not node.args and not node.keywords:
             if node.func.id == "list":
                 self.n += 1
